@@ -298,11 +298,13 @@ def optimize_kl(likelihood_energy,
                     pass
     # /Sanity check of input
 
+    # The helpers below consult these module globals: set them on every call, a
+    # call without output directory must not write into the one of an earlier call
+    global _output_directory
+    global _save_strategy
+    _output_directory = output_directory
+    _save_strategy = save_strategy
     if output_directory is not None:
-        global _output_directory
-        global _save_strategy
-        _output_directory = output_directory
-        _save_strategy = save_strategy
 
         # Create all necessary subfolders
         if _MPI_master(comm(initial_index)):
